@@ -92,6 +92,11 @@ def gen_name(rng: random.Random, taken: set) -> str:
     while True:
         k = rng.randint(1, 14)
         s = "".join(rng.choice(NAME_ALPHA) for _ in range(k)).strip(" .")
+        if rng.random() < 0.12:
+            # names that LOOK structured (a title and a tab, a file with an extension, a path-like name): a sheet name
+            # is an opaque string in every format
+            s = rng.choice(["survey - part 1", "x - " + s, s + " - copy", "data.v2", s + ".csv", "a - b - c", "2024-01 - plan", "tab (1)", "new_" + s])
+            s = s.strip(" .")
         if s and s.lower() not in taken and s.casefold() not in taken:
             taken.add(s.lower())
             taken.add(s.casefold())
